@@ -28,6 +28,7 @@
  *         nb / ne / ns = number of contexts that DISAGREE for the first phone / last phone / only phone
  *         (-1 = table not needed for a word of this length), (b, l, r) the first disagreeing triphone.
  * Scan events carry d2pbad = number of words of the whole dictionary with at least one such disagreement.
+ * Use events carry twin = [] (no twin asked for), [0] (not run) or [1, n_file, same, <live>, <file>] (see do_twin).
  *
  * Everything logged comes from public calls / public struct fields (decoder_s and dict_s are defined in
  * installed headers).  An observation of spelling s is the tuple
